@@ -287,6 +287,56 @@ Fixpoint take_space (s : str) : str :=
   | [] => []
   end.
 
+(* The browser side of T1 (Fetch / MIME Sniffing standards, transcribed): "parse a MIME
+   type" and the CORS-safelisted Content-Type essences.  (The additional "no CORS-unsafe
+   request-header byte" condition of Fetch is dropped, which only makes more values
+   safelisted and the theorem stronger.) *)
+Definition is_http_ws (c : Z) : bool := (c =? 9) || (c =? 10) || (c =? 13) || (c =? 32).
+
+Fixpoint http_lstrip (s : str) : str :=
+  match s with
+  | c :: t => if is_http_ws c then http_lstrip t else s
+  | [] => []
+  end.
+Definition http_rstrip (s : str) : str := rev (http_lstrip (rev s)).
+
+(* HTTP token code points *)
+Definition is_token_char (c : Z) : bool :=
+  is_ascii_alpha c || is_digit c
+  || (c =? 33) || ((35 <=? c) && (c <=? 39)) || (c =? 42) || (c =? 43) || (c =? 45) || (c =? 46)
+  || (c =? 94) || (c =? 95) || (c =? 96) || (c =? 124) || (c =? 126).
+
+Fixpoint after_c (sep : Z) (s : str) : option str :=
+  match s with
+  | [] => None
+  | c :: t => if c =? sep then Some t else after_c sep t
+  end.
+
+Definition mime_essence (v : str) : option str :=
+  let v1 := http_rstrip (http_lstrip v) in
+  let ty := until_c 47 v1 in
+  match after_c 47 v1 with
+  | None => None
+  | Some rest =>
+      if nonempty ty && forallb is_token_char ty then
+        let sub := http_rstrip (until_c 59 rest) in
+        if nonempty sub && forallb is_token_char sub
+        then Some (map ascii_lower ty ++ [47] ++ map ascii_lower sub)
+        else None
+      else None
+  end.
+
+Definition ct_urlencoded : str :=
+  [97;112;112;108;105;99;97;116;105;111;110;47;120;45;119;119;119;45;102;111;114;109;45;117;114;108;101;110;99;111;100;101;100].
+Definition ct_formdata : str := [109;117;108;116;105;112;97;114;116;47;102;111;114;109;45;100;97;116;97].
+Definition ct_textplain : str := [116;101;120;116;47;112;108;97;105;110].
+
+Definition cors_safelisted_ctype (v : str) : bool :=
+  match mime_essence v with
+  | Some e => mem_str e [ct_urlencoded; ct_formdata; ct_textplain]
+  | None => false
+  end.
+
 (* ------------------------------------------------------------------------
    The property's predicates as boolean functions of (request, response).  The same
    functions are proved to hold of [handle r] for every request (Proofs_Origin.v) and are
